@@ -218,7 +218,8 @@ def supported (tm : TypeMap) : Sp → Bool
 def DefaultSp.value : DefaultSp → Option (PyVal × PyVal)
   | .none => Option.none
   | .eq v _ => some (v, v)
-  | .kw v _ => some (v, v)
+  /- `default=None` is the parameter's own default: no default -/
+  | .kw v _ => if v.isNone then Option.none else some (v, v)
   | .eqF p _ => some (p, factoryTag)
   | .kwF p _ => some (p, factoryTag)
 
@@ -256,7 +257,7 @@ def fieldSupported (O : Oracles) (tm : TypeMap) (_future : Bool) (fs : FieldSp) 
   && (match fs.dflt with
       | .none => true
       | .eq v _ => eqDefault v && fs.mode == .ann
-      | .kw v _ => scalarDefault v && kwAllowed fs.ty && (truthy v || defaultOk O (denote fs.ty) v)
+      | .kw v _ => kwDefault v && kwAllowed fs.ty && (truthy v || v.isNone || defaultOk O (denote fs.ty) v)
       | .eqF _ _ => fs.mode == .ann
       | .kwF _ _ => kwAllowed fs.ty)
 
@@ -287,7 +288,7 @@ def documentedField (fs : FieldSp) : Bool :=
   && (match fs.dflt with
       | .none => true
       | .eq v _ => eqDefault v && fs.mode == .ann
-      | .kw v _ => scalarDefault v && kwAllowed fs.ty
+      | .kw v _ => kwDefault v && kwAllowed fs.ty
       | .eqF _ _ => fs.mode == .ann
       | .kwF _ _ => kwAllowed fs.ty)
 
